@@ -246,3 +246,31 @@ func (p *Prog) NodeText(n ast.Node) string {
 	printer.Fprint(&sb, p.Fset, n)
 	return strings.Join(strings.Fields(sb.String()), " ")
 }
+
+// MapKeyExprAt returns the source text of the key of the composite-literal element (or indexed assignment) whose
+// position is pos: go/ssa gives a MapUpdate the position of the ':' of a literal element or of the '[' of m[k] = v.
+func (p *Prog) MapKeyExprAt(fn *ssa.Function, pos token.Pos) string {
+	root := fn
+	for root.Parent() != nil {
+		root = root.Parent()
+	}
+	body := p.Body(root)
+	if body == nil || !pos.IsValid() {
+		return ""
+	}
+	out := ""
+	ast.Inspect(body, func(n ast.Node) bool {
+		switch x := n.(type) {
+		case *ast.KeyValueExpr:
+			if x.Colon == pos {
+				out = types.ExprString(x.Key)
+			}
+		case *ast.IndexExpr:
+			if x.Lbrack == pos {
+				out = types.ExprString(x.Index)
+			}
+		}
+		return out == ""
+	})
+	return out
+}
